@@ -208,6 +208,31 @@ func (e *Exec) callFunc(fn *types.Func, recvExpr ast.Expr, sel *types.Selection,
 		rv := e.eval(recvExpr, c)
 		recv = &rv
 	}
+	// a method of a type-parameter constraint called on a value whose type parameter is instantiated (V=Count):
+	// the method of the concrete type
+	if recv != nil && recv.T.K != KAny && sig.Recv() != nil {
+		var concrete types.Type = recv.T.G
+		if recvExpr != nil {
+			if tv, ok := c.fr.info.Types[recvExpr]; ok && tv.Type != nil {
+				// the static type of the receiver expression with this activation's type arguments
+				if rt := resolve(tv.Type, c.fr.subst); rt != nil {
+					if _, isTP := rt.(*types.TypeParam); !isTP {
+						concrete = rt
+					}
+				}
+			}
+		}
+		if _, isIface := sig.Recv().Type().Underlying().(*types.Interface); isIface && concrete != nil {
+			if obj, _, _ := types.LookupFieldOrMethod(concrete, true, fn.Pkg(), fn.Name()); obj != nil {
+				if m, ok := obj.(*types.Func); ok && m != fn {
+					e.note("constraint method %s resolved to %s (type parameter instantiated)", shortName(name), shortName(fullName(m)))
+					fn = m
+					sig = fn.Type().(*types.Signature)
+					sel = nil
+				}
+			}
+		}
+	}
 	args := e.evalArgs(call.Args, c)
 	args = e.packVariadic(sig, args, call, c)
 	return e.dispatch(fn, recv, args, call, c, want, inst, sel)
